@@ -201,7 +201,11 @@ func c15RunOnce(cs c15Case) (rec map[string]any, err error) {
 		case "query":
 			_, cerr = fg.Query(ctx, "count(up)")
 		case "query_range":
-			_, cerr = fg.RangeQuery(ctx, "count(up)", c14Range{time.Hour, time.Minute}) // fixed window: a repeated call is the identical question
+			// fixed window: a repeated call is the identical question. 6h/5m is cut into three 2h slices that are
+			// requested concurrently, so the aggregation of per-slice errors (one slice's query error cancels its
+			// siblings) sits between the upstream's answer and the failover decision; phase B keeps the one-slice
+			// window (alerts/count range=1h).
+			_, cerr = fg.RangeQuery(ctx, "count(up)", c14Range{6 * time.Hour, 5 * time.Minute})
 		case "config":
 			_, cerr = fg.Config(ctx, 0)
 		case "flags":
